@@ -318,6 +318,46 @@ impl Check for C05 {
                 rec(run, s, l, &alpha, &pr, &mut hist, deep_len);
             });
         }
+        // a surface of more than 65536 pixels, and a chain 40 clips deep
+        {
+            run.bound("large surface and long chain", "300x300: clip path / clip rect / clip path stacks (6 orders) x 3 probes; 6x5: chains of 40 alternating clip rects and paths".to_string());
+            run.par(7, |s, l| {
+                let (w, h, hist): (i32, i32, Vec<Op>) = if s < 6 {
+                    let a = Op::PushClip(PathSpec::poly(&[(3.5, 1.0), (298.0, 40.25), (250.5, 299.0), (10.25, 200.0)]));
+                    let b = Op::PushClipRect(20, 31, 280, 270);
+                    let c = Op::PushClip(PathSpec { evenodd: true, ops: [PathSpec::rect(10.5, 10.25, 280.0, 270.5).ops, PathSpec::rect(100.25, 90.5, 80.0, 120.75).ops].concat() });
+                    let orders = [[0, 1, 2], [0, 2, 1], [1, 0, 2], [1, 2, 0], [2, 0, 1], [2, 1, 0]];
+                    let abc = [a, b, c];
+                    (300, 300, orders[s].iter().map(|&k| abc[k].clone()).collect())
+                } else {
+                    let mut v = Vec::new();
+                    for k in 0..40 {
+                        v.push(if k % 2 == 0 { Op::PushClipRect(k % 3 - 1, 0, 6 - (k % 2), 5) } else { Op::PushClipRect(0, (k % 5) / 3, 6, 5) });
+                    }
+                    v.insert(7, Op::PushClip(PathSpec::poly(&[(0.25, 0.0), (6.0, 0.5), (5.5, 5.0), (0.5, 4.75)])));
+                    (6, 5, v)
+                };
+                let all = probes(w, h);
+                for p in [&all[1], &all[6], &all[3]] {
+                    let mut ops = hist.clone();
+                    ops.extend(p.iter().cloned());
+                    l.states += 1;
+                    l.transitions += ops.len() as u64;
+                    l.traces += 1;
+                    l.evals += 1;
+                    match eval(w, h, &Dst::Distinct, &ops, hist.len()) {
+                        Ok((st, hsh)) => {
+                            l.count("pixels_checked", st.checked);
+                            if st.partial > 0 {
+                                l.nontrivial += 1;
+                            }
+                            l.outcome(hsh);
+                        }
+                        Err(v) => run.report(600_000 + s, v),
+                    }
+                }
+            });
+        }
         super::mixed::explore_mixed(run, "C05", owns_clip, if q { 4 } else { 5 }, false);
     }
 
